@@ -239,8 +239,41 @@ class LoadEngine(object):
         return match[0], decode_selection(self.m, f["ffcs"])
 
     # -- one load_application call --------------------------------------
+    def op_nothing(self):
+        """A load that asks for nothing: an empty map, a binary with no
+        chips, a chip with no cores.  It returns normally and no core of the
+        machine is touched."""
+        t, w, c, m = self.t, self.w, self.c, self.m
+        k = t.draw(4)
+        name = "/sim/none.aplx"
+        self.files[name] = bytes(range(64))
+        xy = sorted(xy for xy, ch in m.chips.items() if not ch.dead)[0]
+        args = [({},), ({name: {}},), (name, {}), ({name: {xy: set()}},)][k]
+        before = {xy_: ch.core_snapshot() for xy_, ch in m.chips.items()}
+        w.trace.ev("op", "load-nothing")
+        w.ops.append("load_application(%r)" % (args,))
+        w.probe("load_of_nothing")
+        status, val = rigcall(
+            w, (c.scp.TimeoutError, c.mcmod.SpiNNakerLoadingError),
+            c.mc.load_application, *args, app_id=40 + k,
+            wait=bool(t.draw(2)))
+        if status != "ok":
+            c.settle()
+            if isinstance(val, c.mcmod.SpiNNakerLoadingError) or c.clean():
+                w.violate("R", "a load of nothing raised %s"
+                          % type(val).__name__, kind="empty-load-failed")
+        for xy_, ch in m.chips.items():
+            if ch.core_snapshot() != before[xy_]:
+                w.violate("X", "a load of nothing changed cores of chip %r"
+                          % (xy_,), kind="unrequested-core-changed")
+        w.ops[-1] += " -> %s" % ("ok" if status == "ok" else
+                                 type(val).__name__)
+        w.ops_completed += 1
+
     def op_load(self, heal=False):
         t, w, c, m = self.t, self.w, self.c, self.m
+        if not heal and t.draw(25) == 0:
+            return self.op_nothing()
         B = c.buffer_size
         live = sorted(xy for xy, ch in m.chips.items() if not ch.dead)
         n_bin = 1 + t.draw_small(4, 0.4)
